@@ -217,3 +217,11 @@ impl Zip64CentralDirectoryEnd {
         Ok(())
     }
 }
+
+// Verification hook (guard: cfg(kani), set only by `cargo kani`); harness code lives outside the repository.
+#[cfg(kani)]
+mod verif_h {
+    #[allow(unused_imports)]
+    use super::*;
+    include!(concat!(env!("ZIP_VERIF_HARNESS_DIR"), "/h_spec.rs"));
+}
